@@ -679,8 +679,8 @@ def require_guard(ctx, body, spec, rule, targets=None, cut_back_edges=True, star
         return False
     path, gs = g.unguarded_path(spec)
     bad = [x for x in gs if x[2].get("bad_polarity")]
-    if path is None and not bad:
-        sites = [body.loc(b) for b, p, i in gs]
+    if path is None:
+        sites = [body.loc(b) for b, p, i in gs if not i.get("bad_polarity")]
         ctx.ok(rule, body.path, what, site=sites[0] if sites else None, detail=dict(guards=sites, accept_sites=len(g.targets)))
         return True
     if bad and path is not None:
